@@ -310,18 +310,19 @@ theorem combine_reinstalls_zeros (d : Dom) (cliques : List Clique) (b : CliqueVe
   rw [combine_eq, (foldl_step_spec d cliques zs b τ hd hcl hcn ⟨hkeys, hb⟩ hz hτ).2, prod_ind,
     if_pos hit, mul_zero]
 
-/-- **zero in every answer**: if the joint vanishes at every assignment extending the declared cell
-`(zc, cell)`, then the marginal onto any attribute tuple containing `zc` vanishes at every
+/-- **zero in every answer**: if the joint vanishes at every IN-RANGE assignment extending the declared cell
+`(zc, cell)`, then the marginal onto any attribute tuple containing `zc` vanishes at every in-range
 assignment extending that cell — in-clique, out-of-clique, full vector alike (the answers are
-`total · marginal / Z` by C01/C02) -/
+`total · marginal / Z` by C01/C02).  The hypothesis is asked on `d.Valid τ` only: on an out-of-range `τ` a table
+lookup reads the default `⟨1⟩`, so the unrestricted form is false for every model with an attribute outside `zc`. -/
 theorem zero_in_all_answers (d : Dom) (pots : CliqueVec (LogOf K)) (z : ZeroSpec) (as : List Attr)
-    (σ : Attr → Nat) (hd : d.WF) (has : as.Nodup) (hsub : ∀ a ∈ as, a ∈ d.attrs) (hzc : ∀ a ∈ z.zc, a ∈ as)
-    (hzero : ∀ τ, Hits z τ → joint pots τ = 0) (hσ : Hits z σ) :
+    (σ : Attr → Nat) (hd : d.WF) (hzc : ∀ a ∈ z.zc, a ∈ as)
+    (hzero : ∀ τ, d.Valid τ → Hits z τ → joint pots τ = 0) (hσv : d.Valid σ) (hσ : Hits z σ) :
     marginal d pots as σ = 0 := by
   unfold marginal
   rw [sumOver_congr d (d.invert as) σ (joint pots) (fun _ => 0), sumOver_zero]
-  intro v _
-  apply hzero
+  intro v hv
+  apply hzero _ (valid_override d hd σ _ v hσv hv)
   unfold Hits at hσ ⊢
   have : z.zc.map (Dom.override σ (d.invert as) v) = z.zc.map σ := by
     apply List.map_congr_left
